@@ -227,12 +227,19 @@ func (d *definedVar) HasRefs() bool {
 
 // initialize scans and writes all supported functions in all non-internal packages used in the program
 func (t *trashGenerator) initialize(ssaProg *ssa.Program) {
-	for _, p := range ssaProg.AllPackages() {
+	// Both the program's packages and their members are kept in maps;
+	// visit them in a fixed order so that the same seed picks the same candidates.
+	pkgs := ssaProg.AllPackages()
+	slices.SortFunc(pkgs, func(a, b *ssa.Package) int {
+		return strings.Compare(a.Pkg.Path(), b.Pkg.Path())
+	})
+	for _, p := range pkgs {
 		if isInternal(p.Pkg.Path()) || p.Pkg.Name() == "main" {
 			continue
 		}
 		var pkgFuncs []*types.Func
-		for _, member := range p.Members {
+		for _, memberName := range slices.Sorted(maps.Keys(p.Members)) {
+			member := p.Members[memberName]
 			if !token.IsExported(member.Name()) {
 				continue
 			}
@@ -283,6 +290,7 @@ func (t *trashGenerator) chooseRandomVar(typ types.Type, vars map[string]*define
 	if len(candidates) == 0 {
 		return nil
 	}
+	slices.Sort(candidates) // vars is a map
 
 	targetVarName := candidates[t.rand.Intn(len(candidates))]
 	targetVar := vars[targetVarName]
@@ -326,6 +334,10 @@ func (t *trashGenerator) generateRandomConst(p types.Type, rand *mathrand.Rand) 
 	if len(candidates) == 0 {
 		panic(fmt.Errorf("unsupported type: %v", p))
 	}
+	// valueGenerators is a map
+	slices.SortFunc(candidates, func(a, b types.Type) int {
+		return strings.Compare(a.String(), b.String())
+	})
 
 	generatorType := candidates[rand.Intn(len(candidates))]
 	generator := valueGenerators[generatorType]
@@ -383,11 +395,17 @@ func (t *trashGenerator) cacheMethods(vars map[string]*definedVar) {
 func (t *trashGenerator) chooseRandomMethod(vars map[string]*definedVar) (string, *types.Func) {
 	t.cacheMethods(vars)
 
+	// vars is a map; go through it in sorted order and keep the types in the
+	// order they are first seen, so that the draws below are reproducible.
 	groupedCandidates := make(map[types.Type][]string)
-	for name, v := range vars {
-		typ := deref(v.Type)
+	var candidateTypes []types.Type
+	for _, name := range slices.Sorted(maps.Keys(vars)) {
+		typ := deref(vars[name].Type)
 		if len(t.methodCache[typ]) == 0 {
 			continue
+		}
+		if _, ok := groupedCandidates[typ]; !ok {
+			candidateTypes = append(candidateTypes, typ)
 		}
 		groupedCandidates[typ] = append(groupedCandidates[typ], name)
 	}
@@ -396,7 +414,6 @@ func (t *trashGenerator) chooseRandomMethod(vars map[string]*definedVar) (string
 		return "", nil
 	}
 
-	candidateTypes := slices.Collect(maps.Keys(groupedCandidates))
 	candidateType := candidateTypes[t.rand.Intn(len(candidateTypes))]
 	candidates := groupedCandidates[candidateType]
 
@@ -497,6 +514,7 @@ func (t *trashGenerator) generateAssign(vars map[string]*definedVar) ast.Stmt {
 			varNames = append(varNames, name)
 		}
 	}
+	slices.Sort(varNames) // vars is a map
 	t.rand.Shuffle(len(varNames), func(i, j int) {
 		varNames[i], varNames[j] = varNames[j], varNames[i]
 	})
